@@ -479,5 +479,5 @@ pub fn check() -> Check {
     .assume("'locked' for role entries means the role's updater role is deny-all (there is no lock flag on role entries)")
     .assume("lock-then-write through one handle in the same transaction leaves the item unlocked (field_write / key_value_entry_set build an unlocked substate); the property speaks of later transactions, so this is not judged")
     .min_nontrivial_pct(40.0)
-    .part(Part::new("histories", 900, 50_000, 400, case))
+    .part(Part::new("histories", 2500, 100_000, 400, case))
 }
